@@ -846,7 +846,8 @@ class H2Stream:
         self.state_machine.process_input(input_)
         return
 
-    def send_headers(self, headers, encoder, end_stream=False):
+    def send_headers(self, headers, encoder, end_stream=False,
+                     first_frame_overhead=0):
         """
         Returns a list of HEADERS/CONTINUATION frames to emit as either headers
         or trailers.
@@ -880,7 +881,7 @@ class H2Stream:
         hf = HeadersFrame(self.stream_id)
         hdr_validation_flags = self._build_hdr_validation_flags(events)
         frames = self._build_headers_frames(
-            headers, encoder, hf, hdr_validation_flags
+            headers, encoder, hf, hdr_validation_flags, first_frame_overhead
         )
 
         if end_stream:
@@ -918,8 +919,9 @@ class H2Stream:
         ppf = PushPromiseFrame(self.stream_id)
         ppf.promised_stream_id = related_stream_id
         hdr_validation_flags = self._build_hdr_validation_flags(events)
+        # The promised stream ID takes four bytes of the first frame.
         frames = self._build_headers_frames(
-            headers, encoder, ppf, hdr_validation_flags
+            headers, encoder, ppf, hdr_validation_flags, 4
         )
 
         return frames
@@ -1260,7 +1262,8 @@ class H2Stream:
                               headers,
                               encoder,
                               first_frame,
-                              hdr_validation_flags):
+                              hdr_validation_flags,
+                              first_frame_overhead=0):
         """
         Helper method to build headers or push promise frames.
         """
@@ -1283,20 +1286,21 @@ class H2Stream:
 
         encoded_headers = encoder.encode(headers)
 
-        # Slice into blocks of max_outbound_frame_size. Be careful with this:
-        # it only works right because we never send padded frames or priority
-        # information on the frames. Revisit this if we do.
-        header_blocks = [
+        # Slice into blocks that fit max_outbound_frame_size. The first frame
+        # may carry more than its header block fragment (the promised stream
+        # ID of a PUSH_PROMISE frame, the priority fields of a HEADERS frame):
+        # leave room for that. An empty header list (valid for trailers) still
+        # gets one frame, to carry END_HEADERS.
+        first_block_size = self.max_outbound_frame_size - first_frame_overhead
+        header_blocks = [encoded_headers[:first_block_size]]
+        header_blocks.extend(
             encoded_headers[i:i+self.max_outbound_frame_size]
             for i in range(
-                0, len(encoded_headers), self.max_outbound_frame_size
+                first_block_size,
+                len(encoded_headers),
+                self.max_outbound_frame_size
             )
-        ]
-
-        # An empty header list (valid for trailers) still needs one frame to
-        # carry END_HEADERS.
-        if not header_blocks:
-            header_blocks = [b'']
+        )
 
         frames = []
         first_frame.data = header_blocks[0]
